@@ -20,6 +20,7 @@ import (
 	"runtime"
 	"sort"
 	"strings"
+	"syscall"
 	"time"
 
 	"github.com/nsqio/go-nsq"
@@ -46,6 +47,10 @@ func (c NTFCfg) String() string {
 type NTFSpec struct {
 	Cfg    NTFCfg   `json:"cfg"`
 	Events []string `json:"events"` // msg:a | msg:long | msg:nl | tick | hup | term | hour | adv:<s>
+	// FaultKind / FaultNth: the FaultNth-th file operation of this kind (write | fsync | rename
+	// | open) on the tool's files fails (a write stores half of its data first)
+	FaultKind string `json:"fault_kind,omitempty"`
+	FaultNth  int    `json:"fault_nth,omitempty"`
 }
 
 type ntfEv struct {
@@ -71,6 +76,7 @@ type ntfTrace struct {
 	WorkRel string
 	OutRel  string
 	Exited  string
+	FaultHit bool
 }
 
 var lastNTF *ntfTrace
@@ -140,6 +146,21 @@ func runNTF(spec NTFSpec, base string) vx.Out {
 		}
 	}
 	defer func() { vos.Hook = nil; vos.CloseLeaked() }()
+	if spec.FaultKind != "" {
+		seen := 0
+		vos.Fault = func(e vos.Effect) error {
+			if !strings.HasPrefix(e.Path, base) || !strings.HasPrefix(e.Op, spec.FaultKind) {
+				return nil
+			}
+			seen++
+			if seen == spec.FaultNth {
+				tr.FaultHit = true
+				return syscall.EIO
+			}
+			return nil
+		}
+		defer func() { vos.Fault = nil }()
+	}
 	vos.ExitHook = func(code int) {
 		tr.Exited = fmt.Sprintf("os.Exit(%d): %s", code, tr.Exited)
 		vrt.Fail("app exited: " + tr.Exited)
@@ -252,7 +273,7 @@ func judgeNTF(tr *ntfTrace) (viol []vx.Found, images int) {
 				return
 			}
 		}
-		viol = append(viol, vx.Found{Sig: clause + " :: ntf " + tr.Spec.Cfg.String(), Detail: fmt.Sprintf("events %v: ", tr.Spec.Events) + fmt.Sprintf(f, a...)})
+		viol = append(viol, vx.Found{Sig: clause + " :: ntf " + tr.Spec.Cfg.String(), Detail: fmt.Sprintf("events %v%s: ", tr.Spec.Events, faultTag(tr.Spec)) + fmt.Sprintf(f, a...)})
 	}
 	// (a fatal exit of the tool is not a violation of this property as long as nothing that
 	// was FINed is missing; it is reported as an observation in the outcome)
@@ -436,6 +457,7 @@ func fileList(dir map[string]*inode, content func(*inode) []byte, gz bool) []str
 type ntfRes struct {
 	Outs   []vx.Out `json:"outs"`
 	Images int      `json:"images"`
+	Hits   int      `json:"hits"` // runs in which the injected fault was reached
 }
 
 func init() {
@@ -458,6 +480,14 @@ func init() {
 				o.Viol = append(o.Viol, vx.Found{Sig: vx.FailSig(f) + " :: ntf " + s.Cfg.String(), Detail: fmt.Sprintf("events %v: %s", s.Events, f)})
 			}
 			stopConsumer()
+			if s.FaultKind != "" && !lastNTF.FaultHit {
+				// the history has fewer operations of that kind: same run as without a fault
+				r.Outs = append(r.Outs, vx.Out{Obs: "fault not reached"})
+				continue
+			}
+			if lastNTF.FaultHit {
+				r.Hits++
+			}
 			v, n := judgeNTF(lastNTF)
 			r.Images += n
 			o.Viol = append(o.Viol, v...)
@@ -507,6 +537,13 @@ func init() {
 	stdos.Exit(checkC19(*tier))
 }
 
+func faultTag(s NTFSpec) string {
+	if s.FaultKind == "" {
+		return ""
+	}
+	return fmt.Sprintf(" %s#%d fails", s.FaultKind, s.FaultNth)
+}
+
 func countFins(tr *ntfTrace) int {
 	n := 0
 	for _, e := range tr.Events {
@@ -519,7 +556,7 @@ func countFins(tr *ntfTrace) int {
 
 func checkC19(tier string) int {
 	rep := vx.NewReport("C19", tier, "fault_enumeration")
-	rep.Rule = "E4: every sequence of <= N events (message of three shapes, sync-interval tick, SIGHUP, SIGTERM, an hour passing, the rotate interval passing) x configurations (gzip x rotate-size x rotate-interval x work-dir x skip-empty-files x max-in-flight x pre-existing colliding files) run through nsq_to_file's own FileLogger and router() under the controlled runtime; the file-effect log interleaved with FINs is then cut at every prefix x loss variants of unsynced data (all / none / half, per file) and each image judged in memory: every FINed body+newline intact in a readable (gzip: decompressible up to the first error) file, pre-existing files never overwritten or dropped, nothing left in the work dir after a clean stop. evaluations = images judged; distinct = distinct (config, events, fins) outcomes"
+	rep.Rule = "E4: every sequence of <= N events (message of three shapes, sync-interval tick, SIGHUP, SIGTERM, an hour passing, the rotate interval passing) x configurations (gzip x rotate-size x rotate-interval x work-dir x skip-empty-files x max-in-flight x pre-existing colliding files), and the same with every single write / fsync / rename / open of the tool failing in turn (EIO, a write stores half), run through nsq_to_file's own FileLogger and router() under the controlled runtime; the file-effect log interleaved with FINs is then cut at every prefix x loss variants of unsynced data (all / none / half, per file) and each image judged in memory: every FINed body+newline intact in a readable (gzip: decompressible up to the first error) file, pre-existing files never overwritten or dropped, nothing left in the work dir after a clean stop. evaluations = images judged; distinct = distinct (config, events, fins) outcomes"
 	rep.Assumptions = []string{"link/unlink/rename are atomic and durable", "go-nsq turns Finish() into FIN (the tool's obligation is judged at the Delegate seam)"}
 	depth := 4
 	if tier == "thorough" {
@@ -564,6 +601,24 @@ func checkC19(tier string) int {
 			specs = append(specs, NTFSpec{Cfg: c, Events: s})
 		}
 	}
+	// the same histories (one event shorter) with every single file operation failing in turn
+	nFault := 0
+	for ci, c := range cfgs {
+		if tier != "thorough" && ci >= 16 {
+			break
+		}
+		for _, s := range seqsAll {
+			if len(s) >= depth {
+				continue
+			}
+			for _, kind := range []string{"fsync", "write", "rename", "open"} {
+				for nth := 1; nth <= 3; nth++ {
+					specs = append(specs, NTFSpec{Cfg: c, Events: s, FaultKind: kind, FaultNth: nth})
+					nFault++
+				}
+			}
+		}
+	}
 	var args []interface{}
 	var groups [][]NTFSpec
 	for i := 0; i < len(specs); i += 64 {
@@ -574,7 +629,7 @@ func checkC19(tier string) int {
 		groups = append(groups, specs[i:j])
 		args = append(args, specs[i:j])
 	}
-	images := 0
+	images, faultHits := 0, 0
 	vx.Par("ntf", args, func(i int, res json.RawMessage, errStr, crash string) {
 		if crash != "" || errStr != "" {
 			rep.InfraError(fmt.Sprintf("ntf batch starting at %v %v: %s%s", groups[i][0].Cfg, groups[i][0].Events, crash, errStr))
@@ -583,8 +638,12 @@ func checkC19(tier string) int {
 		var r ntfRes
 		json.Unmarshal(res, &r)
 		images += r.Images
+		faultHits += r.Hits
 		for k, o := range r.Outs {
-			rep.Outcome(fmt.Sprintf("%s %v => %s", groups[i][k].Cfg, groups[i][k].Events, o.Obs))
+			if o.Obs == "fault not reached" {
+				continue
+			}
+			rep.Outcome(fmt.Sprintf("%s %v%s => %s", groups[i][k].Cfg, groups[i][k].Events, faultTag(groups[i][k]), o.Obs))
 			if k == 0 && len(rep.Samples) < 8 {
 				rep.Sample(map[string]interface{}{"config": groups[i][k].Cfg.String(), "events": groups[i][k].Events, "outcome": o.Obs})
 			}
@@ -600,7 +659,8 @@ func checkC19(tier string) int {
 	rep.Evaluations = images
 	rep.Extra["configurations"] = len(cfgs)
 	rep.Extra["event_sequences_per_configuration"] = len(seqsAll)
-	rep.Extra["histories"] = len(specs)
+	rep.Extra["histories"] = len(specs) - nFault
+	rep.Extra["histories_with_an_injected_io_fault"] = faultHits
 	rep.Extra["images_judged"] = images
 	rep.Extra["max_events"] = depth
 	exits := 0
